@@ -1,7 +1,9 @@
 package c09
 
 import (
+	"encoding/json"
 	"fmt"
+	"os"
 	"net/netip"
 	"sync"
 	"testing"
@@ -30,13 +32,52 @@ var (
 	}
 )
 
+// specials returns three identities per special range. Finding a key whose address
+// falls into a /16 takes tens of thousands of key generations, so the identities
+// (deterministic: DRBG per range) are kept in testdata/special_ids.json; every entry
+// is loaded through the real m.AddressFromStorage and checked against its range,
+// and a missing or unusable file is regenerated.
 func specials() map[string][]*m.Address {
 	specialOnce.Do(func() {
 		specialIDs = map[string][]*m.Address{}
+		const file = "testdata/special_ids.json"
+		var stored map[string][]m.AddressStorage
+		if b, err := os.ReadFile(file); err == nil {
+			_ = json.Unmarshal(b, &stored)
+		}
+		ok := stored != nil
+		for _, sp := range specialList {
+			if !ok || len(stored[sp.name]) != 3 {
+				ok = false
+				break
+			}
+			for _, as := range stored[sp.name] {
+				a, err := m.AddressFromStorage(as)
+				if err != nil || !sp.prefix.Contains(a.IP) || a.PrivateKey == nil {
+					ok = false
+					break
+				}
+				specialIDs[sp.name] = append(specialIDs[sp.name], a)
+			}
+		}
+		if ok {
+			return
+		}
+		specialIDs = map[string][]*m.Address{}
+		stored = map[string][]m.AddressStorage{}
 		for _, sp := range specialList {
 			d := kit.NewDRBG("ids/c09-special/"+sp.name, 1)
 			for i := 0; i < 3; i++ {
-				specialIDs[sp.name] = append(specialIDs[sp.name], kit.GenIdentity(d, sp.prefix))
+				a := kit.GenIdentity(d, sp.prefix)
+				specialIDs[sp.name] = append(specialIDs[sp.name], a)
+				stored[sp.name] = append(stored[sp.name], a.Store())
+			}
+		}
+		if b, err := json.MarshalIndent(stored, "", " "); err == nil {
+			_ = os.MkdirAll("testdata", 0o755)
+			tmp := fmt.Sprintf("%s.%d", file, os.Getpid())
+			if os.WriteFile(tmp, b, 0o644) == nil {
+				_ = os.Rename(tmp, file)
 			}
 		}
 	})
